@@ -15,9 +15,9 @@ THEOREMS = [("C17", ["C17_truncation_general", "C17_truncation_prefix", "C17_syn
                      "C17_de_prefix_determinism", "C17_compressed_values_genuine_de", "C17_header_truncation", "C17_header_truncation_chunked",
                      "C17_chunked_truncation_prefix", "C17_corruption_no_panic", "C17_reader_give_up_only", "C17_reader_give_up_any",
                      "C17_compressed_file_truncated", "C17_compressed_file_count_changed", "C17_compressed_file_payload_replaced", "C17_snappy_file_truncated",
-                     "C17_compressed_reader_total", "C17_empty_datum_rejected"])]
+                     "C17_compressed_reader_total", "C17_empty_datum_rejected", "C17_snappy_file_count_changed", "C17_snappy_file_payload_replaced"])]
 PROOF_FILES = ["proofs/ContainerReadProofs.v", "proofs/ContainerProofs.v", "proofs/ContainerHeaderProofs.v", "proofs/ContainerChunkProofs.v", "proofs/DePrefixProofs.v",
-               "proofs/ContainerDamageProofs.v", "proofs/DecodeLoopProofs.v", "proofs/DecodeLoopDe.v", "proofs/DecodeLoopDePrefix.v", "proofs/ContainerCodecProofs.v", "proofs/ContainerCodecDamage.v", "props/C17.v"]
+               "proofs/ContainerDamageProofs.v", "proofs/DecodeLoopProofs.v", "proofs/DecodeLoopDe.v", "proofs/DecodeLoopDePrefix.v", "proofs/ContainerCodecProofs.v", "proofs/ContainerCodecDamage.v", "proofs/ContainerCodecDamageSnappy.v", "props/C17.v"]
 TRUSTED_BASE = [
     "Coq 8.16.1 kernel; no axioms (Print Assumptions: closed)",
     "hand-written model/Container.v of reader/mod.rs + de/read/take.rs (NotInBlock / InBlock / Broken, per-block limit, sync check, error once then end of stream), null codec; tied by the correspondence run (item sequences of successive deserialize_next calls on damaged files, slice and chunked readers)",
